@@ -514,6 +514,9 @@ var _ *openfgav1.Userset
 //@   loop 2 invariant forall k string :: has(weights, k) <==> $visited[k]
 //@   loop 2 invariant forall k string :: $visited[k] ==> has(edge.to.weights, k) && weights[k] == edge.to.weights[k]
 //@   loop 2 invariant forall m map[string]int, k string :: m != weights ==> has(m, k) == pre(has(m, k)) && m[k] == pre(m[k])
+//@   -- a target reached again with unresolved placeholders "R#x" and no cycle reported by the descent: every such x is
+//@   -- reported to the ancestors (C04/C05: otherwise the placeholder survives or an AND/BUT-NOT on the cycle is missed)
+//@   loop 2 invariant reported: !isTupleCycle ==> (forall k string :: $visited[k] && hasPrefix(k, "R#") ==> (exists i int :: 0 <= i && i < len(tupleCycle) && "R#" + tupleCycle[i] == k))
 //@   loop 3 invariant edge.weights != nil && edge.to != nil && edge.weights != edge.to.weights
 //@   loop 3 invariant forall k string :: has(edge.weights, k) <==> has(edge.to.weights, k)
 //@   loop 3 invariant forall k string :: has(edge.weights, k) ==> edge.weights[k] == ite($visited[k] && edge.to.weights[k] != Infinite, edge.to.weights[k] + 1, edge.to.weights[k])
